@@ -1,4 +1,142 @@
-import Crs.Update
+/-
+  C15 — inspecting commands never write; rewriting commands touch only their targets.
+
+  Model: `Crs.Cli` (which files of a tree the --all walks select, what is written to them). The tree holds the
+  regular files below the resolved CRS root; nothing outside the root can be named by the modelled operations.
+  The correspondence check (row K10) compares the tree the model predicts with the tree the real binary leaves
+  behind, file by file, on generated CRS trees with decoys; the snapshot oracle additionally watches everything
+  outside the root.
+-/
+import Crs.Cli
 namespace Crs.Props
-theorem C15_placeholder : True := trivial
+open Crs Crs.Cli Crs.Format
+
+/-! ### format -/
+
+/-- no file is created, deleted, renamed or reordered -/
+theorem C15_format_paths (check : Bool) (lint : Bytes → Bool) (t : Tree) :
+    (formatAll check lint t).tree.map Prod.fst = t.map Prod.fst := by
+  induction t with
+  | nil => rfl
+  | cons pb rest ih =>
+    obtain ⟨p, b⟩ := pb
+    simp only [formatAll]
+    split
+    · split
+      · rfl
+      · simp only [List.map_cons, ih]
+    · simp only [List.map_cons, ih]
+
+/-- every file that is not an `.ra` file below regex-assembly is byte-identical afterwards -/
+theorem C15_format_frame (check : Bool) (lint : Bytes → Bool) (t : Tree) :
+    (formatAll check lint t).tree.filter (fun pb => !isFormatTarget pb.1) = t.filter (fun pb => !isFormatTarget pb.1) := by
+  induction t with
+  | nil => rfl
+  | cons pb rest ih =>
+    obtain ⟨p, b⟩ := pb
+    simp only [formatAll]
+    by_cases ht : isFormatTarget p = true
+    · simp only [ht, if_true]
+      split
+      · rfl
+      · simp only [List.filter_cons, ht, Bool.not_true, Bool.false_eq_true, if_false, ih]
+    · have ht' : isFormatTarget p = false := by simpa using ht
+      simp only [ht', Bool.false_eq_true, if_false, List.filter_cons, Bool.not_false, if_true, ih]
+
+/-- `--check` writes nothing at all -/
+theorem C15_format_check_writes_nothing (lint : Bytes → Bool) (t : Tree) : (formatAll true lint t).tree = t := by
+  induction t with
+  | nil => rfl
+  | cons pb rest ih =>
+    obtain ⟨p, b⟩ := pb
+    simp only [formatAll]
+    split
+    · split
+      · rfl
+      · have : (formatOne true (lint p) b).1 = b := by
+          unfold formatOne; split <;> simp
+        simp only [this, ih]
+    · simp only [ih]
+
+/-! ### renumber-tests -/
+
+theorem C15_renumber_paths (check : Bool) (t : Tree) : (renumberAll check t).tree.map Prod.fst = t.map Prod.fst := by
+  induction t with
+  | nil => rfl
+  | cons pb rest ih =>
+    obtain ⟨p, b⟩ := pb
+    simp only [renumberAll]
+    split <;> simp only [List.map_cons, ih]
+
+/-- every file that is not `NNNNNN.yaml|.yml` below tests/regression/tests is byte-identical afterwards -/
+theorem C15_renumber_frame (check : Bool) (t : Tree) :
+    (renumberAll check t).tree.filter (fun pb => (renumberId? pb.1).isNone) = t.filter (fun pb => (renumberId? pb.1).isNone) := by
+  induction t with
+  | nil => rfl
+  | cons pb rest ih =>
+    obtain ⟨p, b⟩ := pb
+    simp only [renumberAll]
+    cases h : renumberId? p with
+    | some id => simp only [List.filter_cons, h, Option.isNone_some, Bool.false_eq_true, if_false, ih]
+    | none => simp only [List.filter_cons, h, Option.isNone_none, if_true, ih]
+
+theorem C15_renumber_check_writes_nothing (t : Tree) : (renumberAll true t).tree = t := by
+  induction t with
+  | nil => rfl
+  | cons pb rest ih =>
+    obtain ⟨p, b⟩ := pb
+    simp only [renumberAll]
+    cases h : renumberId? p with
+    | some id =>
+      have : (renumberOne true id b).1 = b := by
+        unfold renumberOne; simp only; split <;> simp
+      simp only [this, ih]
+    | none => simp only [ih]
+
+/-! ### update-copyright -/
+
+theorem C15_copyright_paths (v y : Bytes) (t : Tree) : (copyrightAll v y t).tree.map Prod.fst = t.map Prod.fst := by
+  induction t with
+  | nil => rfl
+  | cons pb rest ih =>
+    obtain ⟨p, b⟩ := pb
+    simp only [copyrightAll]
+    split <;> simp only [List.map_cons, ih]
+
+/-- every file whose name does not end in `.conf` or `.example` is byte-identical afterwards -/
+theorem C15_copyright_frame (v y : Bytes) (t : Tree) :
+    (copyrightAll v y t).tree.filter (fun pb => !isCopyrightTarget pb.1) = t.filter (fun pb => !isCopyrightTarget pb.1) := by
+  induction t with
+  | nil => rfl
+  | cons pb rest ih =>
+    obtain ⟨p, b⟩ := pb
+    simp only [copyrightAll]
+    by_cases ht : isCopyrightTarget p = true
+    · simp only [ht, if_true, List.filter_cons, Bool.not_true, Bool.false_eq_true, if_false, ih]
+    · have ht' : isCopyrightTarget p = false := by simpa using ht
+      simp only [ht', Bool.false_eq_true, if_false, List.filter_cons, Bool.not_false, if_true, ih]
+
+/-! ### inspecting commands -/
+
+/-- generate, compare, version, completion have no write operation in the model -/
+theorem C15_inspect (t : Tree) : inspect t = t := rfl
+
+/-! ### the target predicates on the decoys of the generated trees (non-vacuity of the frames) -/
+
+example : isFormatTarget "regex-assembly/942100.ra".toList = true ∧ isFormatTarget "regex-assembly/include/words.ra".toList = true
+    ∧ isFormatTarget "regex-assembly/942100.ra.bak".toList = false ∧ isFormatTarget "regex-assembly/notes.txt".toList = false
+    ∧ isFormatTarget "rules/x.ra".toList = false ∧ isFormatTarget "regex-assemblyx/942100.ra".toList = false := by decide +kernel
+
+example : renumberId? "tests/regression/tests/REQUEST-920-X/920100.yaml".toList = some "920100".toList
+    ∧ renumberId? "tests/regression/tests/REQUEST-920-X/920100.yml".toList = some "920100".toList
+    ∧ renumberId? "tests/regression/tests/REQUEST-920-X/920999".toList = none
+    ∧ renumberId? "tests/regression/tests/REQUEST-920-X/9209990.yaml".toList = none
+    ∧ renumberId? "tests/regression/tests/REQUEST-920-X/920998.yaml.orig".toList = none
+    ∧ renumberId? "tests/regression/920100.yaml".toList = none
+    ∧ renumberId? "docs/920100.yaml".toList = none := by decide +kernel
+
+example : isCopyrightTarget "rules/REQUEST-942-X.conf".toList = true ∧ isCopyrightTarget "crs-setup.conf.example".toList = true
+    ∧ isCopyrightTarget "util/example.conf.disabled".toList = false ∧ isCopyrightTarget "docs/conf.txt".toList = false
+    ∧ isCopyrightTarget "rules/restricted-files.data".toList = false := by decide +kernel
+
 end Crs.Props
